@@ -59,6 +59,14 @@ def exec_c02(cfg, devs):
         ex.observe(cf)
         # first in the list: marks the instant the disconnected notification starts
         cf.disconnected.callbacks.insert(0, lambda uri: ex.log('disc_begin', vsched._v_current_thread_name()))
+        # log registrations of packet callbacks (a registration made by the dispatcher after the disconnect has begun
+        # is how the late-callback finding leaks into the next session)
+        orig_add = cf.incoming.add_header_callback
+
+        def logged_add(cb, port, channel, port_mask=0xFF, channel_mask=0xFF):
+            ex.log('reg', getattr(cb, '__qualname__', repr(cb))[:40], vsched._v_current_thread_name())
+            return orig_add(cb, port, channel, port_mask, channel_mask)
+        cf.incoming.add_header_callback = logged_add
 
         def on_connected(uri):
             lg = cfh.toc_fingerprint(cf.log.toc) if cf.log.toc is not None else None
@@ -171,7 +179,7 @@ def _judge(p, cfg, devs, ex, info, dev):
     ev1, ev2 = ev[:cut], ev[cut + 1:]
     cbs1 = [(e[2], e[3]) for e in ev1 if e[1] == 'cb']
     names1 = [c[0] for c in cbs1]
-    trace = [(e[1], e[2]) + tuple(e[3:4]) for e in ev1 if e[1] != 'rx']
+    trace = [(e[1], e[2]) + tuple(e[3:4]) for e in ev1 if e[1] not in ('rx', 'reg')]
     when_close_early = any(l == 'user.close' for (_, a, l) in ex.ch.taken)
 
     def viol(clause, what):
@@ -304,7 +312,12 @@ def _judge(p, cfg, devs, ex, info, dev):
     names2 = [e[2] for e in ev2 if e[1] == 'cb']
     prog2 = [n for n in names2 if n in PROGRESS]
     if info.get('s2_full') and (prog2 != list(PROGRESS) or names2.count('connection_requested') != 1):
-        viol('second_session_grammar:' + '>'.join(prog2), 'fault-free second session delivered %r' % (names2,))
+        k1 = [e[1] for e in ev1]
+        late_reg = 'disc_begin' in k1 and any(e[1] == 'reg' and e[3].startswith('_IncomingPacketHandler')
+                                              for e in ev1[k1.index('disc_begin'):])
+        viol('second_session_grammar:' + '>'.join(prog2) + (':after_late_registration' if late_reg else ''),
+             'fault-free second session delivered %r%s' % (names2, '; in session 1 the dispatcher registered a packet callback '
+                                                          'after the disconnect had begun' if late_reg else ''))
     if not info.get('s2_full'):
         names2 = [e[2] for e in ev2 if e[1] == 'cb']
         viol('second_session_incomplete:' + (names2[-1] if names2 else 'nothing') + (
